@@ -748,6 +748,9 @@ Proof.
   rewrite range_from_in by lia. split; intros (i & H1 & H2); exists i; split; lia.
 Qed.
 
+Lemma inner_assoc x y z : (x ++ String ch_colon (y ++ String ch_colon z)) ++ "]" = x ++ ":" ++ y ++ ":" ++ z ++ "]".
+Proof. rewrite sapp_assoc. cbn [append]. rewrite sapp_assoc. reflexivity. Qed.
+
 (* ================================================================== what the rewriter does to each kind of bracket *)
 Section BracketFacts.
   Variable has : label -> bool.
@@ -840,7 +843,7 @@ Section BracketFacts.
     intros Ta Ca Ra Tb Cb Rb.
     exists (ropt (Some (Z.of_nat pa)) ++ String ch_colon (ropt (Some (Z.of_nat pb + 1)) ++ String ch_colon (ropt None))).
     split.
-    - exact (label_slice_rewrite_loc (LP a _) (LP b _) (conj Ta (conj Ca Ra)) (conj Tb (conj Cb Rb))).
+    - rewrite inner_assoc. exact (label_slice_rewrite_loc (LP a _) (LP b _) (conj Ta (conj Ca Ra)) (conj Tb (conj Cb Rb))).
     - rewrite index_sem_slice3 by apply ropt_no_colon. rewrite slice_sem_ropt. reflexivity.
   Qed.
 
@@ -857,7 +860,7 @@ Section BracketFacts.
     split.
     - pose proof (label_slice_step_rewrite_loc (LP a _) (LP b _) (Z_to_string s) (conj Ta (conj Ca Ra)) (conj Tb (conj Cb Rb))
                     (ropt_no_colon (Some s))) as H.
-      rewrite strip_Z_to_string in H. exact H.
+      rewrite strip_Z_to_string in H. rewrite inner_assoc. exact H.
     - rewrite index_sem_slice3 by apply ropt_no_colon. rewrite slice_sem_ropt. cbn [step_of].
       replace (0 <? s) with true by lia. reflexivity.
   Qed.
@@ -871,7 +874,7 @@ Section BracketFacts.
   Proof.
     intros Tb Cb Rb. exists (ropt None ++ String ch_colon (ropt (Some (Z.of_nat pb + 1)) ++ String ch_colon (ropt None))).
     split.
-    - exact (label_slice_rewrite_loc LOpen (LP b _) I (conj Tb (conj Cb Rb))).
+    - rewrite inner_assoc. exact (label_slice_rewrite_loc LOpen (LP b _) I (conj Tb (conj Cb Rb))).
     - rewrite index_sem_slice3 by apply ropt_no_colon. rewrite slice_sem_ropt. reflexivity.
   Qed.
 
@@ -883,7 +886,7 @@ Section BracketFacts.
   Proof.
     intros Ta Ca Ra. exists (ropt (Some (Z.of_nat pa)) ++ String ch_colon (ropt None ++ String ch_colon (ropt None))).
     split.
-    - exact (label_slice_rewrite_loc (LP a _) LOpen (conj Ta (conj Ca Ra)) I).
+    - rewrite inner_assoc. exact (label_slice_rewrite_loc (LP a _) LOpen (conj Ta (conj Ca Ra)) I).
     - rewrite index_sem_slice3 by apply ropt_no_colon. rewrite slice_sem_ropt. reflexivity.
   Qed.
 
@@ -1004,26 +1007,27 @@ Section EvalFacts.
 
   Lemma ns_get_app d1 d2 k : ns_get (d1 ++ d2)%list k = match ns_get d1 k with Some v => Some v | None => ns_get d2 k end.
   Proof.
-    induction d1 as [|[k0 v0] r IH]; cbn [app EvalIdx.ns_get]; [reflexivity|].
+    induction d1 as [|[k0 v0] r IH]; [reflexivity|].
+    rewrite <- app_comm_cons. cbn [EvalIdx.ns_get].
     destruct (String.eqb k k0); [reflexivity|exact IH].
   Qed.
 
   (* dict.update: the LAST binding of a key in the source wins, keys absent from the source keep their value *)
-  Definition ns_last (src : ns) (k : string) : option V := ns_get (rev src) k.
+  Definition ns_last (src : ns) (k : string) : option V := ns_get (List.rev src) k.
 
   Lemma ns_get_update src : forall d k,
     ns_get (ns_update d src) k = match ns_last src k with Some v => Some v | None => ns_get d k end.
   Proof.
     unfold ns_last, EvalIdx.ns_update.
-    induction src as [|[k0 v0] r IH]; intros d k; cbn [fold_left rev]; [reflexivity|].
-    rewrite IH. cbn [fst snd]. rewrite ns_get_app. destruct (ns_get (rev r) k); [reflexivity|].
+    induction src as [|[k0 v0] r IH]; intros d k; cbn [fold_left List.rev]; [reflexivity|].
+    rewrite IH. cbn [fst snd]. rewrite ns_get_app. destruct (ns_get (List.rev r) k); [reflexivity|].
     cbn [EvalIdx.ns_get]. rewrite ns_get_set. destruct (String.eqb k k0); reflexivity.
   Qed.
 
   (* for a source without repeated keys (a Python dict) "last" is just "the" binding *)
   Lemma ns_last_nodup src k : NoDup (map fst src) -> ns_last src k = ns_get src k.
   Proof.
-    unfold ns_last. induction src as [|[k0 v0] r IH]; [reflexivity|]. cbn [map fst rev EvalIdx.ns_get].
+    unfold ns_last. induction src as [|[k0 v0] r IH]; [reflexivity|]. cbn [map fst List.rev EvalIdx.ns_get].
     intros ND. inversion ND as [|x l Hnin ND']; subst. rewrite ns_get_app, (IH ND').
     cbn [EvalIdx.ns_get]. destruct (String.eqb k k0) eqn:E.
     - apply String.eqb_eq in E; subst k0.
